@@ -442,16 +442,15 @@ impl MqttState {
             return Err(StateError::Unsolicited(pubcomp.pkid));
         }
         self.outgoing_rel.set(pubcomp.pkid as usize, false);
+        // whatever the reason code says, the QoS 2 flow on this packet id is over
+        self.inflight -= 1;
 
         if pubcomp.reason != PubCompReason::Success {
             warn!(
                 "PubComp Pkid = {:?}, reason: {:?}",
                 pubcomp.pkid, pubcomp.reason
             );
-            return Ok(None);
         }
-
-        self.inflight -= 1;
 
         // the packet id is free now: release a publish that was waiting for it
         let outgoing = self.check_collision(pubcomp.pkid).map(|publish| {
